@@ -43,6 +43,10 @@ def units(tier, seed, only=None):
             elif name in c02.SLOW_KISSAT or op.hard:
                 u.backends = ['kissat', 'minisat']
                 u.timeout = 400
+            if name in HARD_FLOAT:
+                u.optional = True        # thorough-tier attempt only
+                u.timeout = 900
+                u.backends = ['kissat']
             us.append(u)
     us.append(cgen.gen_unit_accw_int(tier))
     if only:
